@@ -160,8 +160,29 @@ func genC20(r *Rng, e *Emitter, n int) {
 				flat = append(flat, r.anyBits()) // extra ordinates must be ignored
 			}
 		}
+		offGrid := false
 		if shape == 4 && size >= 3 { // closed loop: zero-length chord between first and last point
 			copy(flat[(size-1)*stride:], flat[:2])
+			if r.chance(1, 3) {
+				// ... or a chord that is not quite zero: the track returns to within 2^-540 … 2^-1070 of
+				// where it started (the square of the chord's length underflows)
+				tinyOff := math.Ldexp(1, -[]int{540, 600, 1000, 1070}[r.Intn(4)])
+				li := (size - 1) * stride
+				for q, x0, y0 := 0, flat[0], flat[1]; q < len(flat); q += stride { // start at the origin
+					flat[q], flat[q+1] = flat[q]-x0, flat[q+1]-y0
+				}
+				switch r.Intn(3) {
+				case 0:
+					flat[li] += tinyOff
+				case 1:
+					flat[li+1] -= tinyOff
+				default:
+					flat[li] += tinyOff
+					flat[li+1] += tinyOff
+				}
+				e.tally("almost-closed-loop")
+				offGrid = true
+			}
 		}
 		thrChoices := []float64{0, 0, 0.5, 1, 1.5, 2, math.Sqrt2, 3, 4, 10, float64(grid)}
 		thr := thrChoices[r.Intn(len(thrChoices))]
@@ -211,7 +232,11 @@ func genC20(r *Rng, e *Emitter, n int) {
 		done := false
 		short := ""
 		var idx, idx2 []int
-		e.emitR("C20.simplify", fmt.Sprintf("(%d %s %s)", stride, hexF(thr), sxCoord(flat)), func() string {
+		op := "C20.simplify"
+		if offGrid {
+			op = "C20.simplifyx" // (off the integer grid: judged to 10^-9 of the coordinate scale)
+		}
+		e.emitR(op, fmt.Sprintf("(%d %s %s)", stride, hexF(thr), sxCoord(flat)), func() string {
 			if !done {
 				idx = xy.SimplifyFlatCoords(in, thr, stride)
 				var flat2 []float64
